@@ -2,6 +2,8 @@ use crate::prng::Rng;
 use std::collections::BTreeMap;
 
 pub mod dos;
+pub mod fault;
+pub mod aes;
 pub mod layers;
 pub mod z64;
 pub mod align;
@@ -53,9 +55,12 @@ pub trait Stream {
 pub fn all() -> Vec<Box<dyn Stream>> {
     vec![
         Box::new(dos::Dos),
+        Box::new(fault::Fault),
         Box::new(z64::Z64),
         Box::new(read::ReadStream),
-        Box::new(write::WriteStream),
+        Box::new(write::WriteStream("write")),
+        Box::new(write::WriteStream("append")),
+        Box::new(write::WriteStream("rawcopy")),
         Box::new(clones::Clones),
         Box::new(paths::Paths),
         Box::new(text::Text),
@@ -63,6 +68,7 @@ pub fn all() -> Vec<Box<dyn Stream>> {
         Box::new(align::Align),
         Box::new(layers::Layers),
         Box::new(layers::Damage),
+        Box::new(aes::Aes),
     ]
 }
 
